@@ -25,7 +25,12 @@ def main():
             else:
                 totals, reps = ([0, 1, 2, 7, 100, 799, 800, 801, 802, 1600, 5000], 8) if impl == 'c' else ([0, 1, 7, 799, 801, 1600], 3)
             plan.append(dict(fam=fam, impl=impl, seed=ck.seed * 100 + len(plan), totals=totals, reps=reps))
-    results = jobs.run_jobs('harness.workers.multi_worker', plan)
+    # the same with the container operands stored in the data manager and evicted (ghosts when multiunion starts)
+    for fam in (['II', 'LL', 'QQ', 'UF'] if quick else fams):
+        for impl in ('c', 'py'):
+            plan.append(dict(fam=fam, impl=impl, seed=ck.seed * 100 + 70 + len(plan), totals=[1, 7, 60, 801], reps=2, ghost=True, nkeys=1200,
+                             pure=(impl == 'py')))
+    results = jobs.run_jobs('harness.workers.multi_worker', plan, pure=True)
     recs, owners = [], []
     for job, res, err in results:
         ident = dict(fam=job['fam'], impl=job['impl'])
